@@ -27,7 +27,9 @@ MIRRORS = {
     # every partition is selected once (clip of the step counter) and every generation of it is visited once, in order
     "C06": [("c09", {"C09.clip": "C06.count"}, ()), ("c07", {"C07.order": "C06.count"}, ())],
     # window length of a trainable connection
-    "C07": [("c10", {"C10.window": "C07.window"}, ())],
+    "C07": [("c10", {"C10.window": "C07.window"}, ()),
+            # a scheduled vertex runs: the only slots a generation passes over are the supervisor's and those of the kinds the user skips
+            ("c06", {"C06.count": ("C07.order", "_run_generation: only")}, ())],
     # the delay given to init() through the params is the one the steps see
     "C09": [("c10", {"C10.apply": "C09.params"}, ())],
     # recorded times are the times the step used
